@@ -27,7 +27,8 @@ LEVEL = "proof"
 LEVEL_TEXT = (
     "Lean 4 theorems about a transcription of HyperGraph.contract/compress/node_size and "
     "CompressedStatsTracker: merging a multibond under a cap that is not smaller than it leaves every "
-    "node size unchanged (prod_merge, compress_preserves_product); along plain contractions every node the "
+    "node size unchanged -- for one merge and for a whole compress call on consistent dictionaries (prod_merge, "
+    "compress_preserves_product, compress_nodeSize); along plain contractions every node the "
     "hypergraph creates carries the tree's legs and size (hg_contract_legs, any sequence), and a step of "
     "compressed_contract_stats whose compression branches merge nothing adds exactly the tree's size to "
     "write / max_size and the tree's flops (uncapped_eq_exact_partial; inputs are counted: init_counts_inputs); "
@@ -48,6 +49,8 @@ LEAN_MODULES = ["CotengraVerif.Props.C20"]
 THEOREMS = [
     "Cotengra.C20.prod_merge",
     "Cotengra.C20.compress_preserves_product",
+    "Cotengra.C20.compress_groups_nodeSize",
+    "Cotengra.C20.compress_nodeSize",
     "Cotengra.C20.init_counts_inputs",
     "Cotengra.C20.uncapped_eq_exact_partial",
     "Cotengra.C20.max_size_counts_inputs_counterexample",
